@@ -317,7 +317,8 @@ def c04(pid, tier, seed, t0):
         M("search-miri", "miri-c04", [["--root-lo", str(i), "--root-hi", str(i + 1), "--depth", "3"] for i in range(0, 10, 2)]),
         P("binary-sessions", _pm2("c04_stage")),
     ]
-    return run_stages(pid, tier, seed, t0, "exploration", stages, required=SEARCH_FEATURES + ("searches",),
+    return run_stages(pid, tier, seed, t0, "exploration", stages,
+                      required=SEARCH_FEATURES + ("searches", "binary_release_recursion_100_plies_plus", "binary_debug_recursion_66_plies_plus"),
                       assumptions=["termination: every search has a logical bound (depth, time, or a stop request "
                                    "at a given poll via hook H1); a stage watchdog firing is inconclusive",
                                    "harness threads have large stacks; exhaustion of the real 2 MiB search-thread "
@@ -410,7 +411,7 @@ def c17(pid, tier, seed, t0):
                       required=("games_with_castle", "games_with_ep", "games_with_promo_q", "games_with_promo_r",
                                 "games_with_promo_b", "games_with_promo_n", "games_from_fen", "games_from_startpos",
                                 "games_with_session_step", "games_with_session_step_after_ucinewgame",
-                                "sessions_with_command_right_after_bestmove_delay"),
+                                "sessions_with_command_right_after_bestmove_delay", "games_with_long_game"),
                       assumptions=["games and expectations come from refchess; the en-passant field of the FEN dump is "
                                    "accepted under any single recording convention"])
 
